@@ -99,6 +99,54 @@ API = {
 RESPONSE_FNS = ['returns', 'returns_default', 'answers', 'answers_arc', 'panics', 'applies_unmocked', 'applies_default_impl']
 
 
+def module_private(f, d=0, n=''):
+    """inline policy: helpers private to their module (`fn`, `pub(self)`, `pub(in module)`) are part of the function that calls
+    them; crate-visible and public functions are analysed on their own"""
+    return f.kind in ('fn', 'assoc') and bool(f.vis) and f.vis.startswith('Restricted') and '::' in f.vis.split('~', 1)[-1] and len(f.blocks) < 60
+
+
+FLAVOUR = [
+    # (function, documented conversion)
+    (r'^build::QuantifyReturnValue::<.*>::once$', 'single-use'),
+    (r'^<build::QuantifyReturnValue<.*> as core::ops::Drop>::drop$', 'single-use'),
+    (r'^build::QuantifyReturnValue::<.*>::n_times$', 'multi-use'),
+    (r'^build::QuantifyReturnValue::<.*>::at_least_times$', 'multi-use'),
+    (r'^build::DefineMultipleResponses::<.*>::returns$', 'multi-use'),
+]
+
+
+def conversion_table(chk, F, rule, cfg):
+    """which conversion stores a returned value: single-use (moved out once, no Clone) exactly for `.returns(v)` that is quantified
+    `once()` or left unquantified; multi-use (cloned per call, original kept until teardown) for n_times / at_least_times /
+    each_call().returns — on every path, whatever the count argument is."""
+    seen = set()
+    n = 0
+    for rx, want in FLAVOUR:
+        fns = [f for f in F.fns.values() if re.search(rx, f.defp)]
+        chk.ob(rule, 'builder function %s exists' % rx, len(fns) == 1, config=cfg, site='anchor:%s' % rx, unrecognised=True, what='anchor %s' % rx, found=[f.defp for f in fns])
+        for fn in fns:
+            seen.add(fn.defp)
+            for p in symex.Interp(F, inline=module_private).run(fn):
+                conv = [e.data[1] for e in p.calls(r'output::IntoReturn(Once)?::into_return(_once)?$')]
+                kinds = set('single-use' if c.endswith('into_return_once') else 'multi-use' for c in conv)
+                pushes = list(p.calls(r'DynBuilderWrapper::push_returner_result$'))
+                if not conv and not pushes:
+                    continue      # a path that stores nothing (Drop with the value already taken)
+                n += 1
+                ok = kinds == {want} and len(conv) == 1
+                chk.ob(rule, '%s stores the returned value with the %s conversion on every path' % (fn.defp.split('::<')[0].split('<')[-1] + '::' + fn.name, want), ok, config=cfg, fn=fn, site='conversion',
+                       what='%s converts with %s' % (fn.name, sorted(kinds)), found=conv, expected=want)
+    # nobody else converts a user value
+    for fn in F.fns.values():
+        if not fn.defp.startswith('build::') and not fn.defp.startswith('<build::'):
+            continue
+        if fn.kind == 'closure' or fn.defp in seen or module_private(fn):
+            continue
+        own = [symex.callee_name(t) for _, t in fn.calls() if re.search(r'output::IntoReturn(Once)?::into_return(_once)?$', symex.callee_name(t))]
+        chk.ob(rule, 'no other builder function converts a returned value', not own, config=cfg, fn=fn, site='conversion-census', unrecognised=True, what='undocumented conversion site %s' % fn.defp, found=own)
+    chk.floor(rule, 'value-storing builder paths', n, 5, config=cfg)
+
+
 def api_table(chk, F, rule, cfg):
     """R02.2 / R03.4"""
     nq = 0
